@@ -56,6 +56,8 @@ pub const C04_KINDS: &[&str] = &[
 	"hdr-output-mmr-zero-growth",
 	"hdr-kernel-mmr-zero-growth",
 	"hdr-output-mmr-overweight",
+	"known-alt-timestamp",
+	"known-alt-prev-root",
 ];
 pub const C15_KINDS: &[&str] = &["bitmap-bit-flipped"];
 pub const LATE_KINDS: &[&str] = &[
@@ -79,6 +81,7 @@ impl World {
 			hash,
 			kind: kind.to_string(),
 			header_bad,
+			twin_of: None,
 		});
 		self.bad.len() - 1
 	}
@@ -371,6 +374,7 @@ impl World {
 			}
 			// ---------------------------------------------------------------- C01
 			"hdr-offset-zero" | "hdr-offset-random" => self.gen_bad_offset(kind),
+			"known-alt-timestamp" | "known-alt-prev-root" => self.gen_bad_known_altered(kind),
 			k if C01_KINDS.contains(&k) => self.gen_bad_value(k),
 			// ---------------------------------------------------------------- C04
 			k if C04_KINDS.contains(&k) => self.gen_bad_header(k),
@@ -671,6 +675,30 @@ impl World {
 		let _ = prev;
 		self.mine(&mut b, diff);
 		Some(self.push_bad(parent, b, kind, false))
+	}
+
+	/// C04: an altered copy of an honest block. The header hash covers only the proof of work, so the
+	/// copy keeps the honest block's hash while its proof no longer belongs to its contents. It must be
+	/// refused on every path also - especially - when the node already knows that hash.
+	fn gen_bad_known_altered(&mut self, kind: &str) -> Option<usize> {
+		if self.cfg.free_difficulty {
+			return None;
+		}
+		let id = self.pick_parent(1)?;
+		let parent = self.blocks[id].parent?;
+		let prev = self.blocks[parent].block.header.clone();
+		let mut b = self.blocks[id].block.clone();
+		match kind {
+			"known-alt-timestamp" => b.header.timestamp = prev.timestamp - chrono::Duration::seconds(self.rng.range(60, 3600) as i64),
+			_ => b.header.prev_root = Hash::from_vec(&self.rng.bytes(32)),
+		}
+		if b.hash() != self.blocks[id].hash || grin_core::pow::verify_size(&b.header).is_ok() {
+			return None;
+		}
+		let i = self.push_bad(parent, b, kind, true);
+		self.bad[i].twin_of = Some(id);
+		*self.stats.entry(format!("bad_{}", kind)).or_insert(0) += 1;
+		Some(i)
 	}
 
 	/// C01: the header's accumulated kernel offset is the block's only statement about the offset
